@@ -167,8 +167,8 @@ def audit(prop):
 class LeanDriver:
     """Synchronous line protocol with `lake env lean --run Driver.lean`."""
 
-    def __init__(self):
-        self.p = subprocess.Popen(['lake', 'env', 'lean', '--run', 'Driver.lean'], cwd=LEAN,
+    def __init__(self, main='Main/Biv.lean'):
+        self.p = subprocess.Popen(['lake', 'env', 'lean', '--run', main], cwd=LEAN,
                                   stdin=subprocess.PIPE, stdout=subprocess.PIPE, stderr=subprocess.PIPE,
                                   text=True, bufsize=1)
         self.n = 0
